@@ -95,7 +95,15 @@ def reply_assembly(run, rid="R8"):
     ih = next((m for n, m in HP.methods.items() if n.endswith("__internal_handle_request")), None)
     run.require(ih is not None, "HSM2Protocol.__internal_handle_request vanished")
     g = A.cfg(ih, HP)
-    ops = [n for n in A.own_nodes(ih) if isinstance(n, ast.Call) and isinstance(n.func, ast.Subscript) and _strip(norm(n.func.value)) == "self._mappings"]
+    def looked_up(n, table):
+        """a call of an entry of self.<table>: directly, or through a local that holds the entry"""
+        if isinstance(n.func, ast.Subscript) and _strip(norm(n.func.value)) == f"self.{table}":
+            return True
+        if isinstance(n.func, ast.Name):
+            ds_ = defs_of(A, ih, n.func.id)
+            return bool(ds_) and all(getattr(d_, "value", None) is not None and f"self.{table}" in norm(d_.value) and f"self.{table}s" not in norm(d_.value) for d_ in ds_)
+        return False
+    ops = [n for n in A.own_nodes(ih) if isinstance(n, ast.Call) and looked_up(n, "_mappings")]
     run.require(len(ops) == 1, "__internal_handle_request: the operation call self._mappings[command](request) was not identified")
     opn = g.nodes_of(ops[0])
     run.require(len(opn) == 1, "__internal_handle_request: operation call node not unique")
@@ -152,7 +160,7 @@ def reply_assembly(run, rid="R8"):
                               "element 1 of the command's result): fields or the result code the command produced would not reach the client")
     run.floor(rid, "reply assembly cases", n, 2)
     # the validation verdict
-    vals = [n_ for n_ in A.own_nodes(ih) if isinstance(n_, ast.Call) and isinstance(n_.func, ast.Subscript) and _strip(norm(n_.func.value)) == "self._validation_mappings"]
+    vals = [n_ for n_ in A.own_nodes(ih) if isinstance(n_, ast.Call) and looked_up(n_, "_validation_mappings")]
     run.require(len(vals) == 1, "__internal_handle_request: the validation call was not identified")
     VT = _strip(norm(vals[0]))
 
